@@ -160,6 +160,38 @@ def build_funcs(ck, imms, quick):
             g.add(f"ext:{k}:{s}", "i_i", f"  {op} r, a\n  ret r", shape="r")
             g.add(f"ext:{k}:{s}", "i_i", f"  mov r, a\n  {op} r, r\n  ret r", shape="d=s")
             g.add(f"ext:{k}:{s}", "i_i", f"  alloca p, 16\n  mov i64:(p), a\n  {op} r, i64:(p)\n  ret r", locs="i64:r, i64:p", shape="m")
+    # two extensions in a row, every pair (copy propagation merges them at -O2), and an extension of a narrow load
+    for k1 in (8, 16, 32):
+        for s1 in (1, 0):
+            o1 = ("ext" if s1 else "uext") + str(k1)
+            for k2 in (8, 16, 32):
+                for s2 in (1, 0):
+                    o2 = ("ext" if s2 else "uext") + str(k2)
+                    key = f"ext2:{k1}:{s1}:{k2}:{s2}"
+                    g.add(key, "i_i", f"  {o1} x, a\n  {o2} r, x\n  ret r", locs="i64:r, i64:x", shape="ext;ext")
+                    g.add(key, "i_i", f"  {o1} x, a\n  {o2} r, x\n  add r, r, x\n  sub r, r, x\n  ret r", locs="i64:r, i64:x",
+                          shape="ext;ext both live")
+                    g.add(key, "i_i", f"  mov r, a\n  {o1} r, r\n  {o2} r, r\n  ret r", shape="ext;ext d=s")
+            for t in ("i8", "u8", "i16", "u16", "i32", "u32"):
+                g.add(f"ldext:{t}:{k1}:{s1}", "i_i", f"  alloca p, 16\n  mov i64:(p), a\n  mov x, {t}:(p)\n  {o1} r, x\n  ret r",
+                      locs="i64:r, i64:p, i64:x", shape="ld;ext")
+    # a compare whose result only feeds bt / bf (the combiner fuses the pair into one compare-and-branch; for
+    # floating point the false branch must not become the opposite compare: NaN operands)
+    def cmp_bt(key, sig, cmpi, locs, short):
+        for kind in ("bt", "bf") + (("bts", "bfs") if True else ()):
+            neg = kind in ("bf", "bfs")
+            t1, t0 = ("0", "1") if not neg else ("1", "0")
+            body = f"  {cmpi}\n  {kind} @t, c\n  mov r, {t1}\n  ret r\n@t:\n  mov r, {t0}\n  ret r"
+            g.add(key + (":neg" if neg else ""), sig, body, locs=locs, shape=f"cmp;{kind}")
+    for a in CMPS:
+        for short in (False, True):
+            op = a + ("s" if short else "")
+            cmp_bt(f"bin:{a}:{int(short)}", "ii_i", f"{op} c, a, b", "i64:r, i64:c", short)
+    for pfx, sigc in (("f", "ff_i"), ("d", "dd_i")):
+        for c in ("eq", "ne", "lt", "le", "gt", "ge"):
+            cmp_bt(f"fp:{pfx}{c}", sigc, f"{pfx}{c} c, a, b", "i64:r, i64:c", False)
+    for c in ("eq", "ne", "lt", "le", "gt", "ge"):
+        cmp_bt(f"ldbl:ld{c}", "ll_i", f"ld{c} c, a, b", "i64:r, i64:c", False)
     g.add("neg:0", "i_i", "  neg r, a\n  ret r", shape="r")
     g.add("neg:1", "i_i", "  negs r, a\n  ext32 r, r\n  ret r", shape="r")
     for o in ("add", "sub", "mul", "umul"):
@@ -403,7 +435,7 @@ def main():
         ldev = [(i, e) for i, e in enumerate(evals) if g.meta[e[0]]["key"].startswith("ldbl:")]
         ldexp = {}
         if ldev:
-            rplan = "".join(f"ref {g.meta[fn]['key'][5:]} {a:x} {b:x}\n" for _, (fn, a, b, rs) in ldev)
+            rplan = "".join(f"ref {g.meta[fn]['key'][5:].replace(':neg', '')} {a:x} {b:x}\n" for _, (fn, a, b, rs) in ldev)
             pr = subprocess.run([exe, "interp", mir, "-q"], input=rplan, stdout=subprocess.PIPE, stderr=subprocess.PIPE, text=True)
             nl = [l.split()[2] for l in pr.stdout.split("\n") if l.startswith("N ")]
             if len(nl) != len(ldev):
